@@ -23,7 +23,11 @@ func (closerSuite) Gen(r *rand.Rand, i int) Case {
 	t := int64(r.Intn(50))
 	next := int64(-1)
 	armed := 0
-	for j, n := 0, 1+r.Intn(40); j < n; j++ {
+	nLong := 1 + r.Intn(40)
+	if r.Intn(25) == 0 {
+		nLong = 200 + r.Intn(300) // a long history
+	}
+	for j, n := 0, nLong; j < n; j++ {
 		switch x := r.Intn(100); {
 		case x < 10:
 			t += r.Int63n(sleep + 2)
